@@ -716,6 +716,19 @@ func checkEVM(c *run.Ctx, b *evmmon.Base, e *env, cs *evmmon.Case) {
 			viol(c, "C07/"+cls, fmt.Sprintf("RevertToSnapshot issued by the EVM (nesting %d, undone %v): %s -- %s", rep.Live, typesOf(rep.Undone), d, cs.String()), wit)
 		}
 	}
+	// a call that failed without the EVM issuing any rollback at all: the journal was never asked to undo it (an
+	// unfaithful rollback is reported with its mechanism above; here nothing was rolled back)
+	if (res.Err != "" || res.ExecErr != "") && len(res.Px.Reports) == 0 && res.Panic == "" {
+		c.Stat("failed_calls_without_any_rollback_checked", 1)
+		seen := map[string]bool{}
+		for _, d := range fx.Diff(res.Before, res.After, 12) {
+			k := evmmon.FieldKind(evmmon.DiffField(d))
+			if !seen[k] {
+				seen[k] = true
+				viol(c, "C07/failed-call-not-rolled-back:"+k, fmt.Sprintf("the call ended with %q/%q, no RevertToSnapshot was issued, and %s -- %s", res.Err, res.ExecErr, d, cs.String()), wit)
+			}
+		}
+	}
 	e.checkPristine(c, wit)
 	kind := cs.Kind
 	c.Case(fmt.Sprintf("evm %s %s snaps=%d reverts=%d live=%d", kind, cs.Entry, res.Px.NSnap, res.Px.NRevert, res.Px.MaxLive), res.Px.NRevert > 0 && res.Px.MaxLive >= 2,
